@@ -18,6 +18,9 @@ EXPLANATION = (
 EXPLANATION += (
     ' F1 uses bottom-up summaries of the net frame effect of callees (SCC order), so helpers that only pop or push count at their call sites. F7 who may drop: emit_drop is applied only to variables taken out of a frame (drains, return_value) or at the reviewed sites.'
 )
+EXPLANATION += (  # round-3 supplement
+    ' F8 no new generated block is started while a frame of the same method already holds evaluated temporaries (emptying the frame with mem::take clears that). F9 the divergence accumulator of `match` is updated on every iteration path of the arm loop. F10 divergence is inherited only from sub-expressions that are always evaluated (not loop bodies, not the right operand of && / ||).'
+)
 ASSUMPTIONS = [
     "lir lowering turns every mir Drop into exactly one call of the type's drop function",
     "the balance of a particular script is not decided",
